@@ -72,7 +72,7 @@ def run(ck):
             for c in (range(4, 8) if not thorough else range(8, 16)):
                 vals.append(('fin', s, e, c))
         vals += [('fin', s, -4, 1), ('fin', s, 3, 5), ('fin', s, -7, 77)]
-    vals += [('inf', False), ('inf', True), ('nan', False)]
+    vals += [('inf', False), ('inf', True), ('nan', False), ('nan', True)]
     rint_vals = [('fin', s, -12, c) for s in (False, True) for c in (2049, 6143, 6145, 10239, 10241, 4095, 4097, 8193, 12287, 14337, 2047)] + \
                 [('fin', s, -3, c) for s in (False, True) for c in range(1, 40)]
     small = [v for v in vals if v[0] != 'fin' or v[3] in (0, 4, 5, 7, 1) and v[2] in (0, -1, -2, -4)]
